@@ -259,11 +259,55 @@ CONTRACTS = [('ac2poly', post_ac2poly), ('ac2rc', post_ac2rc), ('poly2ac', post_
              ('is2rc', post_is2rc), ('poly2lsf', post_poly2lsf), ('lsf2poly', post_lsf2poly)]
 
 
+def post_levup(acur, knxt, ecur, result):
+    """One step up: [1, a, 0] + k [0, conj(reversed a), 1]; error (1 - |k|^2) ecur."""
+    c = _ctx()
+    try:
+        a = np.asarray(acur, dtype=complex)
+        k = complex(knxt)
+        ok = a.ndim == 1 and len(a) >= 1 and a[0] == 1 and np.all(np.isfinite(a)) and abs(k) < 1
+    except Exception:
+        ok = False
+    if not ok:
+        return c.discard('levup:domain')
+    feats = {'fn': 'levup', 'cplx': bool(np.iscomplexobj(np.asarray(acur)) or np.iscomplexobj(np.asarray(knxt))),
+             'poly_complex_k_real': bool(np.iscomplexobj(np.asarray(acur)) and not np.iscomplexobj(np.asarray(knxt)))}
+    ref = np.concatenate([a, [0]]) + k * np.conj(np.concatenate([a, [0]])[::-1])
+    c.compare('levup:step-up', np.asarray(result[0]), ref, 1e-13, feats, scale=float(np.max(np.abs(ref))))
+    if ecur is not None:
+        c.compare('levup:error', result[1], (1 - abs(k) ** 2) * ecur, 1e-13, feats, scale=abs(ecur) or 1.0)
+
+
+def post_levdown(anxt, enxt, result):
+    c = _ctx()
+    try:
+        a = np.asarray(anxt, dtype=complex)
+        ok = a.ndim == 1 and len(a) >= 2 and a[0] == 1 and np.all(np.isfinite(a)) and abs(a[-1]) < 1
+    except Exception:
+        ok = False
+    if not ok:
+        return c.discard('levdown:domain')
+    k = a[-1]
+    if 1.0 / (1 - abs(k) ** 2) > GMAX:
+        return c.discard('levdown:ill-conditioned')
+    feats = {'fn': 'levdown', 'cplx': bool(np.iscomplexobj(np.asarray(anxt)))}
+    ref = ((a - k * np.conj(a[::-1])) / (1 - abs(k) ** 2))[:-1]
+    c.compare('levdown:step-down', np.asarray(result[0]), ref, 1e-12 / (1 - abs(k) ** 2), feats,
+              scale=float(np.max(np.abs(ref))))
+    if enxt is not None:
+        c.compare('levdown:error', result[1], enxt / (1 - abs(k) ** 2), 1e-12, feats,
+                  scale=abs(enxt / (1 - abs(k) ** 2)) or 1.0)
+
+
 def setup(c):
     import spectrum.linear_prediction as lp
+    from ..bootstrap import smod
     reach.watch(c, {n: getattr(lp, n) for n, _ in CONTRACTS})
+    reach.watch(c, {'levup': smod('levinson').levup, 'levdown': smod('levinson').levdown})
     for n, f in CONTRACTS:
         install.contract('spectrum.linear_prediction', n, f)
+    install.contract('spectrum.levinson', 'levup', post_levup)
+    install.contract('spectrum.levinson', 'levdown', post_levdown)
 
 
 def cases(c):
@@ -340,6 +384,22 @@ def run_case(c, d):
         via = call('rc2ac', pr, np.real(np.asarray(pa)[0]))
         if via is not None:
             c.compare('commute:poly->ac == poly->rc->ac', np.asarray(via), np.asarray(pa), tol, feats, scale=r0)
+    if cplx and p >= 2:
+        # a complex parameter set some of whose coefficients are exactly real, handed over as a plain Python list
+        # of floats and complex numbers (the contracts judge each call)
+        km = np.array(k, copy=True)
+        km[1::2] = km[1::2].real
+        kl = [float(v.real) if v.imag == 0 else complex(v) for v in km]
+        call('rc2poly', kl, r0)
+        call('rc2ac', kl, r0)
+        import spectrum
+        am = refs.stepup(km[:-1])
+        try:
+            spectrum.levinson.levup(am, float(km[-1].real) if km[-1].imag == 0 else complex(km[-1]), 1.0)
+            spectrum.levinson.levup(am, 0.5)                       # complex polynomial, real coefficient
+            spectrum.levinson.levdown(refs.stepup(km), e)
+        except Exception as exc:
+            c.exception('levup/levdown', exc, dict(feats, fn='levup/levdown'))
     if not cplx:
         kr = k.real
         lar = call('rc2lar', kr)
